@@ -893,8 +893,12 @@ func (g *Gen) execInstr(fr *frame, st *State, in ssa.Instruction) {
 		}
 		v := g.val(fr, st, i.Val)
 		if v.LV != nil && len(v.L) == 1 && strings.HasPrefix(v.L[0], "?") {
-			g.errorf("%s: interior pointer %s stored to memory (unsupported)", funcKey(fr.fn), exprOr(fr.text[i.Val], i.Val.Name()))
-			return
+			mv, ok := g.materialize(v)
+			if !ok {
+				g.errorf("%s: address %s stored to memory (unsupported)", funcKey(fr.fn), exprOr(fr.text[i.Val], i.Val.Name()))
+				return
+			}
+			v = mv
 		}
 		g.store(st, lv, v)
 	case *ssa.UnOp:
